@@ -52,6 +52,40 @@ SIGNIFICANT: list[str] = ["", ".", "..", "sub", "dirlink_out", "link_out", "secr
 SEP_COMPONENTS: list[str] = SIGNIFICANT + [TOK_ABS_BS]
 SEPARATORS = ("/", "\\")
 
+# Look-alike layer: Unicode compatibility characters that NFKC-normalise to path syntax
+# (the quantifier's "unicode" next to "path separators, '.', '..', absolute prefixes").
+#   U+2025 TWO DOT LEADER -> "..", U+FF0E FULLWIDTH FULL STOP -> ".", U+FE52 SMALL FULL STOP -> ".",
+#   U+FF0F FULLWIDTH SOLIDUS -> "/", U+FF3C FULLWIDTH REVERSE SOLIDUS -> "\\"
+TOK_ABS_FW = "<ABS_OUTSIDE_WITH_FULLWIDTH_SOLIDUS>"  # the absolute path spelled with U+FF0F for "/"
+LOOKALIKE_COMPONENTS: list[str] = [
+    "", "..", "\u2025", "\uff0e", "\uff0e\uff0e", "\ufe52\ufe52", "sub", "dirlink_out", "secret", TOK_ABS, TOK_ABS_FW,
+]
+# the components used at length 3 (quick) -- every one of them at length <= 2
+LOOKALIKE_CORE: list[str] = ["", "..", "\u2025", "\uff0e\uff0e", "sub", "dirlink_out", "secret"]
+LOOKALIKE_SEPARATORS = ("/", "\uff0f", "\uff3c")
+
+
+def readings(name: str) -> list[str]:
+    """Every way a lenient resolver might read ``name`` (the name itself first).
+
+    Closure under: backslash read as a separator, Unicode NFKC compatibility normalisation,
+    percent-decoding.  Used only to (a) refuse the "a link below the search directory was
+    followed" allowance to names that are absolute / climbing under some reading and (b) decide
+    whether a case is non-trivial.
+    """
+    import unicodedata
+    from urllib.parse import unquote
+
+    out = [name]
+    i = 0
+    while i < len(out) and len(out) < 16:
+        cur = out[i]
+        i += 1
+        for alt in (cur.replace("\\", "/"), unicodedata.normalize("NFKC", cur), unquote(cur)):
+            if alt not in out:
+                out.append(alt)
+    return out
+
 
 def join_sym(toks: Iterable[str], seps: Optional[str] = None) -> str:
     """Symbolic name: tokens joined by ``seps[i]`` (all "/" when seps is None)."""
@@ -171,6 +205,8 @@ class Sandbox:
             return self.outside
         if tok == TOK_ABS_BS:
             return self.outside.replace("/", "\\")
+        if tok == TOK_ABS_FW:
+            return self.outside.replace("/", "\uff0f")
         if tok == TOK_LONG:
             return LONG
         return tok
@@ -210,15 +246,16 @@ class Sandbox:
         """
         if "\x00" in name:
             return False
-        # A backslash may be an ordinary character or (Windows spelling) a separator: the name
-        # must stay relative and below the base under BOTH readings.
-        readings = {name, name.replace("\\", "/")}
+        # A backslash, a compatibility look-alike (U+2025, U+FF0E, U+FF0F ...) or a percent escape may
+        # be an ordinary character or may be read as path syntax: the name must stay relative and
+        # below the base under EVERY reading.
+        rds = [r for r in readings(name) if "\x00" not in r]
         for b in bases:
             b = os.path.normpath(b)
             for e in exts:
                 if all(
                     not os.path.isabs(r) and os.path.normpath(os.path.join(b, r + (e or ""))).startswith(b + os.sep)
-                    for r in readings
+                    for r in rds
                 ):
                     return True
         return False
@@ -270,13 +307,22 @@ def name_feature(toks: list[str], seps: Optional[str] = None) -> str:
     """The discriminating input feature used in violation signatures (first match wins).
 
     Computed on the symbolic name, so it does not depend on where the sandbox lives.  Names
-    that use a backslash as a separator are classified by what they mean when the backslash
-    is read as a separator, prefixed with "backslash-sep:".
+    that use a backslash as a separator, or compatibility look-alikes of path syntax, are
+    classified by what they mean when read as path syntax, prefixed with "backslash-sep:" /
+    "lookalike:".
     """
-    if (seps and "\\" in seps) or TOK_ABS_BS in toks:
-        norm = [TOK_ABS if t == TOK_ABS_BS else t for t in toks]
-        sym = join_sym(norm, seps).replace("\\", "/")
-        return "backslash-sep:" + _feature(sym, norm)
+    import unicodedata
+
+    raw = join_sym(toks, seps)
+    if unicodedata.normalize("NFKC", raw) != raw or TOK_ABS_FW in toks:
+        prefix = "lookalike:"
+    elif (seps and "\\" in seps) or TOK_ABS_BS in toks:
+        prefix = "backslash-sep:"
+    else:
+        return _feature(raw, toks)
+    norm = [TOK_ABS if t in (TOK_ABS_BS, TOK_ABS_FW) else unicodedata.normalize("NFKC", t) for t in toks]
+    sym = unicodedata.normalize("NFKC", join_sym(norm, seps)).replace("\\", "/")
+    return prefix + _feature(sym, norm)
     return _feature(join_sym(toks, seps), toks)
 
 
